@@ -6,6 +6,7 @@ import (
 	"errors"
 	"fmt"
 	"io"
+	"time"
 
 	"nhooyr.io/websocket"
 
@@ -263,6 +264,7 @@ func runC03(r *Run) {
 	var partial []byte
 	var rerr error
 	var inMsg bool
+	var afterFailure []gotMsg
 	var crCtx context.Context
 	readerDone := false
 	r.S.Go("reader", func() {
@@ -274,6 +276,19 @@ func runC03(r *Run) {
 			return
 		}
 		msgs, partial, inMsg, rerr = readAllMsgs(r, rc.C, context.Background(), rapi, rbuf, "reader", 1000)
+		// an application that keeps reading after the failure must not be handed
+		// anything: the reference delivers nothing after the first failure
+		for k := 0; k < 3 && rerr != nil; k++ {
+			ctx, cancel := context.WithTimeout(context.Background(), 2*time.Second)
+			more, _, _, e := readAllMsgs(r, rc.C, ctx, rapi, rbuf, "reader.again", 1)
+			cancel()
+			if len(more) > 0 {
+				afterFailure = append(afterFailure, more...)
+			}
+			if e == nil {
+				continue
+			}
+		}
 		readerDone = true
 		r.S.Park("a.reader.closenow")
 		rc.C.CloseNow()
@@ -373,6 +388,9 @@ func runC03(r *Run) {
 	if rerr == nil {
 		r.Violate("no-error-at-end", sig, "reader stopped without an error")
 		return
+	}
+	if len(afterFailure) > 0 {
+		r.Violate("message-after-failure", sig, "after the read failed with %v, further reads returned %d message(s), the first with %d bytes %q (terminal %s %s)", rerr, len(afterFailure), len(afterFailure[0].Data), afterFailure[0].Data[:min(len(afterFailure[0].Data), 24)], ex.Terminal, ex.What)
 	}
 	switch ex.Terminal {
 	case "close":
